@@ -128,7 +128,7 @@ func runMem(c Case, tr *Tracer) {
 				forceSub = lastSub
 			}
 		}
-		op := rr.Intn(17)
+		op := rr.Intn(18)
 		if forceOp >= 0 {
 			op, forceOp = forceOp, -1
 		} else if r := rr.Intn(8); r == 0 {
@@ -265,6 +265,69 @@ func runMem(c Case, tr *Tracer) {
 			lr.read = func() string { b, _ := hw.Bytes(); return string(b) }
 			add(lr)
 			emit(Ev{"ev": "Codec", "r": id, "fn": "packet.Writer", "same": lr.snap == string(own)}, "Codec")
+		case 17: // a text codec built over the caller's own octets (a field of a PDU it holds, a read buffer): the codec reads them
+			names := []string{"Latin1", "Ascii", "UCS2", "GB18030", "GSM7Unpacked", "GSM7Packed"}
+			ci := rr.Intn(len(names))
+			mkb := []func([]byte) datacoding.Codec{
+				func(b []byte) datacoding.Codec { return datacoding.Latin1(b) },
+				func(b []byte) datacoding.Codec { return datacoding.Ascii(b) },
+				func(b []byte) datacoding.Codec { return datacoding.UCS2(b) },
+				func(b []byte) datacoding.Codec { return datacoding.GB18030(b) },
+				func(b []byte) datacoding.Codec { return datacoding.GSM7Unpacked(b) },
+				func(b []byte) datacoding.Codec { return datacoding.GSM7Packed(b) },
+			}[ci]
+			txt := textFrom(rr, 1+rr.Intn(60), "abc XYZ 0189")
+			if ci == 2 || ci == 3 {
+				txt = textFrom(rr, 1+rr.Intn(40), "abc XYZ 0189中文é")
+			}
+			decode := rr.Intn(2) == 0
+			src := []byte(txt)
+			if decode {
+				enc, e := mkb(src).Encode()
+				if e != nil {
+					continue
+				}
+				src = append([]byte{}, enc...)
+				if ci == 2 && rr.Intn(3) == 0 && len(src)%2 == 0 {
+					// UCS-2 with a byte-order mark, big- or little-endian (octet pairs swapped)
+					if rr.Intn(2) == 0 {
+						src = append([]byte{0xFE, 0xFF}, src...)
+					} else {
+						for i := 0; i+1 < len(src); i += 2 {
+							src[i], src[i+1] = src[i+1], src[i]
+						}
+						src = append([]byte{0xFF, 0xFE}, src...)
+					}
+				}
+			}
+			before := string(src)
+			iid := nextIn
+			nextIn++
+			emit(Ev{"ev": "NewInput", "i": iid}, "NewInput")
+			cd := mkb(src)
+			var out, ref []byte
+			var err, rerr error
+			if decode {
+				out, err = cd.Decode()
+				ref, rerr = mkb([]byte(before)).Decode()
+			} else {
+				out, err = cd.Encode()
+				ref, rerr = mkb([]byte(before)).Encode()
+			}
+			if err != nil || rerr != nil {
+				continue
+			}
+			id := nextID
+			nextID++
+			lr := &liveResult{id: id, kind: "codec", tn: "datacoding." + names[ci], owned: out}
+			lr.read = func() string { return string(lr.owned) }
+			add(lr)
+			// same: the answer is right, and the caller's octets are what they were
+			emit(Ev{"ev": "Decode", "r": id, "i": iid, "type": "datacoding." + names[ci], "same": string(out) == string(ref) && string(src) == before}, "Decode")
+			for i := range src {
+				src[i] = 0xEE
+			}
+			emit(Ev{"ev": "Scribble", "i": iid}, "Scribble")
 		case 16: // the owner of a decoded PDU writes to it: containers, byte members, octets behind the entries' accessors
 			var decs []*liveResult
 			for _, lr := range live {
